@@ -183,7 +183,7 @@ class Statement(object):
         """
         try:
             self.code_pkg = self.operand.translate()
-            self.fixed_size = not (self.code_pkg.additional_needs_resolution or self.code_pkg.post_byte_choices)
+            self.fixed_size = not self.code_pkg.post_byte_choices
         except Exception as error:
             raise TranslationError(str(error), self)
 
@@ -309,6 +309,11 @@ class Statement(object):
                 relative_address = self.operand.left.calculate_address_offset(statements).int
             else:
                 relative_address = statements[self.code_pkg.additional.int].code_pkg.address.int
+
+            if not self.code_pkg.post_byte_choices:
+                # Not relative to the program counter: the label's address is the offset itself
+                self.code_pkg.additional = NumericValue(relative_address, size_hint=4)
+                return
 
             start_address = statements[this_index].code_pkg.address.int
             jump_amount = relative_address - start_address - self.code_pkg.size
